@@ -566,6 +566,8 @@ package lib
 //@   trusted
 //@ func Proxy(reg *DecoyRegistration, clientConn net.Conn, logger *log.Logger)
 //@   requires @SAFETY: reg != nil && clientConn != nil && logger != nil && reg.TransportPtr != nil && *reg.TransportPtr != nil && reg.RegistrationSource != nil
+// C06: the only address the relay dials is the registration's covert address (which ingest replaced by the checked one)
+//@   atcall net.Dial before: assert @C06 @C05: arg1 == reg.Covert
 //@   atcall net.Dial after: snap covert := res0
 //@   atcall net.Dial after: snap dialErr := res1
 //@   atcall halfPipe before: assert @C05: defined(covert) && ((arg0 == clientConn && arg1 == covert) || (arg0 == covert && arg1 == clientConn)) && arg2 == &wg && arg5 == tunStats
